@@ -1,5 +1,5 @@
 CONSTANTS Years <- AllYears Step = 43200
 SPECIFICATION Spec
-INVARIANTS TypeOK Defn Inverse OrdInverse NoPhantom Ends TimeOK HalfDay
+INVARIANTS TypeOK Defn Inverse OrdInverse NoPhantom Ends TimeOK FracArith
 PROPERTY Monotone
 CHECK_DEADLOCK FALSE
